@@ -123,9 +123,7 @@ impl<'s> Lexer<'s> {
 
     pub fn skip_shebang(&mut self) {
         let mut tail = self.input;
-        if tail.eat_str("#!")
-            && tail.starts_with(|c: char| !c.is_whitespace())
-        {
+        if tail.eat_str("#!") {
             tail.eat_until('\n');
             self.bump_to(tail);
         }
